@@ -43,7 +43,8 @@ type metadataProviderFile struct {
 func NewMetadataProviderFile(path string) Provider {
 	return &metadataProviderFile{
 		path:     path,
-		fileLock: fslock.New(path),
+		// The lock lives in a file of its own: the metadata file is replaced on every store
+		fileLock: fslock.New(path + ".lock"),
 	}
 }
 
@@ -115,9 +116,42 @@ func (m *metadataProviderFile) Store(cs *model.ClusterStatus, expectedVersion Ve
 		return "", err
 	}
 
-	if err := os.WriteFile(m.path, newContent, 0600); err != nil {
+	if err := writeFileAtomically(m.path, newContent); err != nil {
 		return NotExists, err
 	}
 
 	return newVersion, nil
+}
+
+// writeFileAtomically replaces the content of the file in such a way that a crash at any point leaves
+// either the previous or the new content in place, never an empty or a partially written file.
+func writeFileAtomically(path string, content []byte) error {
+	tmpPath := path + ".tmp"
+	f, err := os.OpenFile(tmpPath, os.O_WRONLY|os.O_CREATE|os.O_TRUNC, 0600)
+	if err != nil {
+		return err
+	}
+	if _, err = f.Write(content); err == nil {
+		err = f.Sync()
+	}
+	if closeErr := f.Close(); err == nil {
+		err = closeErr
+	}
+	if err != nil {
+		return err
+	}
+
+	if err = os.Rename(tmpPath, path); err != nil {
+		return err
+	}
+
+	dir, err := os.Open(filepath.Dir(path))
+	if err != nil {
+		return err
+	}
+	err = dir.Sync()
+	if closeErr := dir.Close(); err == nil {
+		err = closeErr
+	}
+	return err
 }
